@@ -562,6 +562,17 @@ def check_dataset(case, root, pq, ctx=None, verbose=False):
         if sorted(ids) != sorted(alive):
             problems.append("row ids read back %r, expected the rows with non-null keys %r" % (sorted(ids)[:20], sorted(alive)[:20]))
         pcols = on if hive else ["dir%d" % j for j in range(len(on))]
+        # ParquetFile.cats (observe_at): per partition column the set of key values present
+        if hive and alive and not problems:
+            for j, c in enumerate(on):
+                wantc = sorted({json.dumps(L.canon(keyvals[r][j])) for r in alive})
+                try:
+                    gotc = sorted({json.dumps(L.canon(v)) for v in pf.cats.get(c, [])})
+                except Exception as e:      # noqa
+                    gotc = ["raises %s" % type(e).__name__]
+                if gotc != wantc and not (is_cat[c] and label_kind[c] != "s"):
+                    problems.append("ParquetFile.cats[%r] = %s, keys written %s" % (c, gotc[:6], wantc[:6]))
+                    cls_extra["mismatch"] = "value"
         by_id = {}
         for pos, rid in enumerate(ids):
             row = {}
